@@ -189,6 +189,37 @@ Theorem C20_translated_not_none_indices_is_model : forall l : list (option Z),
 Proof. exact gen_not_none_indices_eq. Qed.
 Print Assumptions C20_translated_not_none_indices_is_model.
 
+(* ---- the uint16 result array (round 3).  store16 c = c mod 2^16 is what the arrays of the internal variants hold;
+        for the resolutions the public function accepts since repair 4036b19 (1..16) nothing is lost, above 16 bit the
+        stored codes wrap (not monotone, upper range end not the highest code), which is why they are rejected ---- *)
+Require Import QV.C20.ProofsStore.
+Theorem C20_uint16_store_faithful : forall (amp off : Q) res vs, (0 < amp)%Q -> (1 <= res <= 16)%Z ->
+  volt_numpy16 amp off res vs = volt_numpy amp off res vs
+  /\ volt_loop16 amp off res vs = volt_loop amp off res vs
+  /\ volt_public amp off res vs = volt_numpy amp off res vs.
+Proof.
+  exact (fun amp off res vs Ha Hr => conj (volt_numpy16_faithful amp off res vs Ha Hr)
+           (conj (volt_loop16_faithful amp off res vs Ha Hr) (volt_public_in_range amp off res vs Ha Hr))).
+Qed.
+Print Assumptions C20_uint16_store_faithful.
+
+Theorem C20_resolution_outside_1_16_rejected : forall (amp off : Q) res vs, (res < 1 \/ 16 < res)%Z ->
+  volt_public amp off res vs = OErr.
+Proof. exact volt_public_rejects_resolution. Qed.
+Print Assumptions C20_resolution_outside_1_16_rejected.
+
+(* without the guard: 17 bit, amplitude 1, offset 0: the voltages 0 < 1/2 (codes 65536 < 98303) are stored as 0 and 32767;
+   the stored code of the lower voltage 0 equals the code of the lower range end *)
+Theorem C20_uint16_wraps_above_16_refuted :
+  exists (amp off : Q) res vs, ((0 < amp)%Q /\ (16 < res)%Z /\ Forall (fun v => (Qabs (v - off) <= amp)%Q) vs)
+    /\ volt_numpy16 amp off res vs <> volt_numpy amp off res vs.
+Proof.
+  exists 1%Q, 0%Q, 17%Z, [0%Q; (1 # 2)%Q]. split.
+  - split; [reflexivity|split; [reflexivity|]]. repeat constructor; discriminate.
+  - destruct store16_wraps_17 as [H1 H2]. rewrite H1, H2. discriminate.
+Qed.
+Print Assumptions C20_uint16_wraps_above_16_refuted.
+
 (* ==== BINARY64 (Flocq) — labelled separately: statements about real numbers, so the real-number axioms of Coq's
         standard library are listed by Print Assumptions (ClassicalDedekindReals.sig_forall_dec, sig_not_dec,
         FunctionalExtensionality.functional_extensionality_dep); overflow to infinity is not modelled ==== *)
@@ -227,3 +258,25 @@ Theorem C20_float_code_exact_inputs : forall amp off res v,
   fcode amp off res v = ZnearestE (xscaled amp off res v).
 Proof. exact fcode_exact_inputs. Qed.
 Print Assumptions C20_float_code_exact_inputs.
+
+(* ---- round 3: quantitative bound.  Sane amplitudes (2^-500 .. 2^500), in-range voltage, resolution 1..16: the float
+        value of the scaled voltage is within 2^-30 of the exact one (actual bound 10 (2^res - 1) 2^-53) ---- *)
+Require Import QV.C20.ProofsFloat2.
+Theorem C20_float_scaled_error_bound : forall (amp off v : R) res,
+  (bpow radix2 (-500) <= amp)%R -> (amp <= bpow radix2 500)%R -> (Rabs (v - off) <= amp)%R -> (1 <= res <= 16)%Z ->
+  (Rabs (RN (RN (RN (v - off) + amp) * fscale amp res) - xscaled amp off res v) <= bpow radix2 (-30))%R.
+Proof. exact fscaled_error. Qed.
+Print Assumptions C20_float_scaled_error_bound.
+
+(* ... hence the float code differs from the exact code of Model.v by at most one, lies within 1/2 + 2^-30 of the exact
+   scaled voltage (the tolerance `code_tol` of the decimal stream in Spec.v), and IS the exact code unless the exact
+   scaled voltage is within 2^-30 of a half-way point.  (Replaces the unquantified hypothesis of
+   C20_float_code_is_exact_code.) *)
+Theorem C20_float_code_within_one : forall (amp off v : Q) res,
+  (bpow radix2 (-500) <= Q2R amp <= bpow radix2 500)%R -> (Rabs (Q2R v - Q2R off) <= Q2R amp)%R -> (1 <= res <= 16)%Z ->
+  (Z.abs (fcode (Q2R amp) (Q2R off) res (Q2R v) - code1 amp off res v) <= 1)%Z
+  /\ (Rabs (IZR (fcode (Q2R amp) (Q2R off) res (Q2R v)) - xscaled (Q2R amp) (Q2R off) res (Q2R v)) <= / 2 + bpow radix2 (-30))%R
+  /\ ((forall k : Z, ~ (Rabs (xscaled (Q2R amp) (Q2R off) res (Q2R v) - (IZR k + / 2)) <= bpow radix2 (-30))%R) ->
+      fcode (Q2R amp) (Q2R off) res (Q2R v) = code1 amp off res v).
+Proof. exact fcode_within_one. Qed.
+Print Assumptions C20_float_code_within_one.
